@@ -178,7 +178,7 @@ def _real_init():
         def glob(p): return ['/md/dmd_properties.h5']
     import numpy as _np
     M.h5py = FakeH5(st0); M.os = FOS; M.glob = G; M.np = _np
-    r = M.DigitalMetadataReader.__new__(M.DigitalMetadataReader)
+    r = chload.new_obj(M.DigitalMetadataReader)
     r._check_compatible_version = lambda: None
     try:
         M.DigitalMetadataReader.__init__(r, '/md')
@@ -517,7 +517,7 @@ def _init_nondestructive(accept_empty: bool, has_fields: bool) -> bool:
         def glob(p): return ['/md/dmd_properties.h5']
     import numpy as _np
     M.h5py = FakeH5(st); M.os = FOS; M.glob = G; M.np = _np
-    r = M.DigitalMetadataReader.__new__(M.DigitalMetadataReader)
+    r = chload.new_obj(M.DigitalMetadataReader)
     r._check_compatible_version = lambda: None
     try:
         M.DigitalMetadataReader.__init__(r, '/md', accept_empty=accept_empty)
@@ -528,9 +528,9 @@ def _init_nondestructive(accept_empty: bool, has_fields: bool) -> bool:
     return removed == ['/md/dmd_properties.h5'] and raised
 
 
-def _add_metadata_nondestructive(readable: bool, writable: bool, age: int, cadence: int) -> bool:
+def _add_metadata_nondestructive(readable: bool, writable: bool, age: int, cadence: int, colsel: int) -> bool:
     """
-    pre: 0 <= age <= 10**6 and 1 <= cadence <= 10**6
+    pre: 0 <= age <= 10**6 and 1 <= cadence <= 10**6 and 0 <= colsel <= 4
     post: _
     """
     # reading a data file deletes it only if opening it fails although it is accessible AND it is older than one file cadence;
@@ -552,11 +552,18 @@ def _add_metadata_nondestructive(readable: bool, writable: bool, age: int, caden
     M.h5py = FakeH5(st); M.np = NP; M.collections = Coll; M.os = FOS; M.time = T
     M.traceback = type('TB', (), {'print_exc': staticmethod(lambda: None)})
     M.print = lambda *a, **k: None
-    r = M.DigitalMetadataReader.__new__(M.DigitalMetadataReader)
+    r = chload.new_obj(M.DigitalMetadataReader)
     r._file_cadence_secs = cadence
     out = RecOD()
     r._add_metadata(out, '/md/f', None, 0, 10, True)          # file opens fine
     ok1 = removed == [] and out.keys() == [5]
+    # a column-restricted read of the same valid file, the column present or not: whatever it returns or raises, the file is not touched
+    cols = [None, 'v', 'nosuch', ['v'], ['nosuch']][colsel]
+    try:
+        r._add_metadata(RecOD(), '/md/f', cols, 0, 10, True)
+    except KeyError:
+        pass
+    ok1 = ok1 and removed == []
     st.unreadable.add('/md/bad')
     r._add_metadata(out, '/md/bad', None, 0, 10, True)        # open raises IOError
     want = ['/md/bad'] if (readable and writable and age > cadence) else []
